@@ -116,9 +116,18 @@ def deser(rows):
 _STUB = {}
 
 
+_FAIL = set()
+
+
+class InfoUnavailable(OSError):
+    """The harness' handler cannot read this file right now."""
+
+
 def _stub_info(file_info):
     """Harness handler: the information of a file comes from the harness' own table."""
     from typhon.files import FileInfo
+    if file_info.path in _FAIL:
+        raise InfoUnavailable("harness: cannot read " + file_info.path)
     e = _STUB[file_info.path]
     return FileInfo(file_info.path, [e["t0"], e["t1"]], json.loads(json.dumps(e["attr"])))
 
@@ -299,6 +308,42 @@ def roundtrip_case(rec, rng, entries, via):
             fs = new_fileset()
             fill(fs, entries)
             fs.save_cache(path)
+        # call history: the information of one file cannot be retrieved (the handler fails), the caller
+        # catches that and carries on; the cache is saved; later the file is readable and saved again
+        if len(entries) >= 2:
+            fsf = new_fileset()
+            fill(fsf, entries[:-1])
+            last = entries[-1]
+            _STUB[last["path"]] = last
+            _FAIL.add(last["path"])
+            try:
+                try:
+                    fsf.get_info(last["path"])
+                    rec.count("observed.failing_handler_did_not_raise")
+                except InfoUnavailable:
+                    pass
+                finally:
+                    _FAIL.discard(last["path"])
+                pf = os.path.join(root, "cacheF.json")
+                fsf.save_cache(pf)
+                cF, wF, eF = load_fresh(pf)
+                have = dict(cF or {})
+                have.pop(last["path"], None)          # (absent, or present: judged below)
+                dF = compare_cache(have, entries[:-1]) if eF is None else {"exception": repr(eF)}
+                if not dF and cF and last["path"] in cF:
+                    dF = compare_cache({last["path"]: cF[last["path"]]}, [last])
+                fsf.get_info(last["path"])
+                fsf.save_cache(pf)
+                cG, wG, eG = load_fresh(pf)
+                dG = compare_cache(cG or {}, entries) if eG is None else {"exception": repr(eG)}
+                rec.count("roundtrip.save_after_failed_get_info")
+                if dF or wF or dG or wG:
+                    rec.violation("cache-roundtrip", dict(case, history="get_info failed for one file, save, "
+                                                                        "retry, save"),
+                                  dict(dF or dG or {}, warnings=[x[:150] for x in (wF + wG)]))
+            except Exception as exc:
+                rec.violation("cache-roundtrip", dict(case, history="get_info failed for one file, then save"),
+                              {"where": "save_cache after a failed get_info", "exception": repr(exc)})
         # second generation: save what was loaded, must be a fixed point
         fs3 = new_fileset()
         fill(fs3, [{"path": p_, "t0": i_.times[0], "t1": i_.times[1], "attr": i_.attr}
